@@ -47,7 +47,7 @@ CLAIMED = {
               "scopes were checked for the name. the function lookup is reached only with the miss of the global-object search for this name established on the path (else the global, else the function). Two obligations fail on the current tree and are listed as known findings "
               "with replays (a node cached as 'not a local' ignores a local introduced later by eval(); a remembered outer "
               "slot wins over an inner variable of the same name introduced later) - both are the same design limit of the "
-              "per-node cache. While those two obligations fail, text handed to eval()/eval_file()/use() must be evaluated on nodes parsed in that very call (no stored syntax tree is re-evaluated): decided for every tree evaluation in ChaiScript_Basic. Not decided: full equivalence with caching disabled on generated programs."),
+              "per-node cache. While those two obligations fail, text handed to eval()/eval_file()/use() must be evaluated on nodes parsed in that very call (no stored syntax tree is re-evaluated): decided for every tree evaluation in ChaiScript_Basic. A script function's body, parameters, captures and `this` live in a frame that eval_function opens unconditionally before binding anything (R4.8): a callee never resolves a name to its caller's local. Not decided: full equivalence with caching disabled on generated programs."),
         technique="control/data-dependence rules on the structured tree, bounds-dominance, dominance of the scope scan",
         ref="DESIGN.md section 4 C04"),
     "C06": dict(
@@ -259,7 +259,7 @@ CLAIMED = {
               "statement); (5) no pass reorders children; (6) Dead_Code drops only node kinds whose evaluator can neither "
               "throw nor have an effect (exception flow over those evaluators); (7) `if (constant)` keeps the arm the "
               "evaluator would run and the compiled for-loop implements exactly the comparison and step its pattern accepts, "
-              "from the pattern's own constants; (8) a node is replaced by a constant only when every child the evaluator would have evaluated is proven constant by the facts that dominate the replacement (a logical operator with one deciding constant operand is not folded)."),
+              "from the pattern's own constants; (8) a node is replaced by a constant only when every child the evaluator would have evaluated is proven constant by the facts that dominate the replacement (a logical operator with one deciding constant operand is not folded); (9) a pass replaces a node by one of its own children only when no other evaluated child is lost (sole child, If with a constant condition, or all other children constant)."),
         technique="referent classification (escape rule), cross-module table agreement between optimizer predicate and evaluator bodies, interprocedural exception flow with dominating-fact call-site filters",
         ref="DESIGN.md section 4 C02"),
     "C03": dict(
@@ -275,7 +275,7 @@ CLAIMED = {
               "for, ranged-for, switch, case, default, try and class evaluate their children under their own scope guard and "
               "functions run in a new frame; assignment evaluates the right operand first, first assignment and `var x = e` "
               "store clone_if_necessary(e), `:=` rebinds without copying; lambda captures are evaluated at creation and owned "
-              "by the callable. clone_if_necessary clears the is-a-temporary mark on the path that does not copy, so the next declaration or assignment that receives the stored value does copy it; overload ordering (function_less_than) evaluated as a decision table on 12 scenarios: guarded before unguarded script functions, typed C++ before script functions, non-const before const, specific before catch-all. a script function's body is entered only under a passed arity/type match and a guard that returned true on the same arguments (guard_error otherwise); Param_Types::match interpreted on one parameter over 12 combinations of its tests accepts exactly untyped, script object of the named class, exact C++ type, convertible C++ type (marked for conversion). script classes: method and attribute wrappers call their body only for objects of their class (type-name match interpreted as a table), `def C::C` builds the constructor wrapper, which creates the object, passes it first followed by the arguments in order and returns it. The copy registered for a built-in container of values must clone element by element (a Boxed_Value copy shares the object): fails for Vector, Map, Map_Pair and Pair on the current tree - four listed known findings with a replay (`var b = a; b[0] = 9` changes a). Not decided: agreement with a reference interpreter on generated programs; values."),
+              "by the callable. clone_if_necessary clears the is-a-temporary mark on the path that does not copy, so the next declaration or assignment that receives the stored value does copy it; overload ordering (function_less_than) evaluated as a decision table on 12 scenarios: guarded before unguarded script functions, typed C++ before script functions, non-const before const, specific before catch-all. a script function's body is entered only under a passed arity/type match and a guard that returned true on the same arguments (guard_error otherwise); Param_Types::match interpreted on one parameter over 12 combinations of its tests accepts exactly untyped, script object of the named class, exact C++ type, convertible C++ type (marked for conversion). script classes: method and attribute wrappers call their body only for objects of their class (type-name match interpreted as a table), `def C::C` builds the constructor wrapper, which creates the object, passes it first followed by the arguments in order and returns it. The copy registered for a built-in container of values must clone element by element (a Boxed_Value copy shares the object): fails for Vector, Map, Map_Pair and Pair on the current tree - four listed known findings with a replay (`var b = a; b[0] = 9` changes a). No optimizer pass removes the evaluation of an operand the evaluator would evaluate (C02 R2.8/R2.9 re-decided as R3.12). Not decided: agreement with a reference interpreter on generated programs; values."),
         technique="table extraction (operator groups, precedence order, node kind per level, recursion level per operand) and shape rules over eval_internal bodies (conditional evaluation, handler placement, scope guards, evaluation order)",
         ref="DESIGN.md section 4 C03"),
     "C11": dict(
